@@ -112,6 +112,17 @@ CHECKS = {
              "Rejected/ProtocolError, no Ready, no message events, socket released. A full accept x Upgrade x status grid is "
              "enumerated. One open known finding (case-insensitive accept comparison) is excluded by a narrow signature.",
         note="Meaning of generated replies is computed from the generator's structure (httpref.interpret_reply), digest by hashlib."),
+    "C06": dict(
+        category="exploration", design_ref="DESIGN.md section 3 / C06",
+        technique="property-based testing of message histories against an independent window-enforcing RFC 7692 reference peer; all 256 parameter combinations enumerated",
+        text="Every one of the 8x8x2x2 negotiated configurations is run with a fixed battery of three histories (cross-message "
+             "repeats both ways, payloads longer than any window, empty/tiny/incompressible) - exhaustive over configurations; "
+             "Hypothesis adds random configurations, header spellings and histories of up to 10 client/server messages "
+             "(fragmented compressed messages incl. empty fragments, interleaved controls, mid-message flushes, levels 0-9, "
+             "compress=False, no negotiation, one randomly damaged compressed message). An independent RFC 7692 peer that "
+             "enforces the negotiated LZ77 windows (1-byte output steps) must restore every client message and every message it "
+             "compresses must arrive intact; damaged input must give the reference inflater's content or a ProtocolError.",
+        note="DEFLATE is zlib on both sides; peer logic (tail handling, context resets, parameter mapping, window) is independent."),
 }
 
 PENDING = {}
